@@ -317,6 +317,20 @@ theorem swapCellRef_rev (m : Mach) (idx : Nat) (v : Cell) : ∃ seg, Rev m (m.sw
       simp [undoC, core, hlt, ← hold]
     · exact ex_refl m
 
+theorem setLoopItems_rev (m : Mach) (c : Cell) : ∃ seg, Rev m (m.setLoopItems c).2 seg := by
+  unfold setLoopItems
+  split
+  · rename_i l rest hls
+    split
+    · rename_i hlt
+      simp [hls] at hlt
+      have h3 : m.ctx.lsLen < rest.length + 1 := by omega
+      exact ⟨_, Rev.mk1 m _ (.loopNextBack l) rfl rfl (by simp [undoC, core, hls, h3]) rfl
+        (fun w => ⟨w.ds, w.rs, by simp; omega, w.ss⟩)
+        ⟨rfl, rfl, rfl, rfl, rfl, rfl, rfl, fun S _ => by simp; omega⟩⟩
+    · exact ex_refl m
+  · exact ex_refl m
+
 /-! ### every native word (= every `Prog`) is reversible, whatever its outcome -/
 
 theorem runProg_rev (p : Prog) : ∀ (m : Mach), WF m → ∃ seg, Rev m (runProg p m).2 seg := by
@@ -434,20 +448,14 @@ theorem runProg_rev (p : Prog) : ∀ (m : Mach), WF m → ∃ seg, Rev m (runPro
   | loopAt n k ih => intro m w; simp only [runProg]; exact ih _ m w
   | setLoopItems c k ih =>
     intro m w; simp only [runProg]
+    obtain ⟨s1, r1⟩ := setLoopItems_rev m c
     split
-    · rename_i l rest hls
-      split
-      · rename_i hlt
-        simp [hls] at hlt
-        have h3 : m.ctx.lsLen < rest.length + 1 := by omega
-        have r1 : Rev m (({ m with loops := { l with items := c } :: rest } : Mach).logStep (.loopNextBack l)) [.loopNextBack l] :=
-          Rev.mk1 m _ (.loopNextBack l) rfl rfl (by simp [undoC, core, hls, h3]) rfl
-            (fun w => ⟨w.ds, w.rs, by simp; omega, w.ss⟩)
-            ⟨rfl, rfl, rfl, rfl, rfl, rfl, rfl, fun S _ => by simp; omega⟩
-        obtain ⟨seg, r2⟩ := ih _ (r1.wf w)
-        exact ⟨_, r1.trans r2⟩
-      · exact ex_refl m
-    · exact ex_refl m
+    · rename_i m1 hp
+      rw [hp] at r1
+      obtain ⟨s2, r2⟩ := ih m1 (r1.wf w)
+      exact ⟨_, r1.trans r2⟩
+    · rename_i e m1 hp; rw [hp] at r1; exact ⟨_, r1⟩
+    · rename_i e m1 hp; rw [hp] at r1; exact ⟨_, r1⟩
   | stop k ih =>
     intro m w; simp only [runProg]
     have r1 := Rev.of_ghost m m.out true
